@@ -328,6 +328,18 @@ func (tr *fnTrans) obligeG(guard, kind, local, goal string, p token.Pos, props [
 			if len(tr.spec.Safety) > 0 {
 				props = tr.spec.Safety
 			}
+		case "pre":
+			// a callee precondition without a property label (library preconditions such as reflect_...): failing
+			// it means a possible panic, so it counts for the safety properties as well as for the function's own
+			seen := map[string]bool{}
+			var u []string
+			for _, p := range append(append([]string{}, tr.props...), tr.spec.Safety...) {
+				if !seen[p] {
+					seen[p] = true
+					u = append(u, p)
+				}
+			}
+			props = u
 		}
 	}
 	tr.obls = append(tr.obls, &Obligation{Name: tr.key + "." + local, Func: tr.key, Kind: kind, Label: local, Guard: guard, Goal: goal,
